@@ -11,7 +11,7 @@ from .values import Unsupported, ShapeMismatch
 from .interp import PathBudget, RaiseEx
 
 VERIF = os.path.dirname(os.path.dirname(os.path.abspath(__file__)))
-EVIDENCE_DIR = os.path.join(VERIF, "evidence")
+EVIDENCE_DIR = os.environ.get("QSA_EVIDENCE_DIR") or os.path.join(VERIF, "evidence")
 KNOWN_FILE = os.path.join(VERIF, "known_findings.json")
 
 
